@@ -165,7 +165,7 @@ def graph_descs(max_v=8, max_e=14, classes=6, vcls=True, max_reassign=3, min_v=1
         st.integers(min_v, max_v),
         st.lists(st.tuples(cls, st.integers(0, max_v - 1), st.integers(0, max_v - 1)), min_size=min_e, max_size=max_e),
         st.lists(st.tuples(st.integers(0, max_e - 1), st.booleans(), st.integers(0, max_v - 1)), max_size=max_reassign),
-        (st.one_of(st.none(), st.lists(st.integers(0, 6 if wide else 3), min_size=1, max_size=4)) if vcls else st.none()),
+        (st.one_of(st.none(), st.lists(st.integers(0, 7 if wide else 3), min_size=1, max_size=4)) if vcls else st.none()),
         st.one_of(st.none(), st.none(), st.none(), st.lists(st.integers(0, 3), min_size=1, max_size=3)),
         st.one_of(st.none(), st.none(), st.none(), st.lists(st.integers(0, 3), min_size=1, max_size=3)),
     )
